@@ -241,6 +241,12 @@ def write_evidence(pid, spec, tier, seed, agg, stages_info, wall, violations, kn
     with open(tmp, "w") as f:
         json.dump(ev, f, indent=1, default=str)
     os.replace(tmp, path)
+    # keep a per-tier copy too (evidence/<id>.json is rewritten by whichever tier ran last)
+    try:
+        os.makedirs(os.path.join(EVID, tier), exist_ok=True)
+        shutil.copy(path, os.path.join(EVID, tier, pid + ".json"))
+    except OSError:
+        pass
     msg = validate_json(path, "/root/.vp/EVIDENCE.schema.json")
     if msg:
         print("evidence does not validate: %s" % msg[:500])
@@ -266,6 +272,17 @@ def validate_json(path, schema_path):
             continue
         return p.stdout.strip().splitlines()[-1] if p.stdout.strip() else "invalid"
     return ""
+
+
+def race_in_code_under_test(out):
+    """a race report whose stacks contain a hypersdk frame outside the harness"""
+    idx = out.find("WARNING: DATA RACE")
+    if idx < 0:
+        return False
+    rep = out[idx:idx + 20000]
+    rep = rep.split("==================", 1)[0] if "==================" in rep else rep
+    frames = re.findall(r"github\.com/ava-labs/hypersdk/[^\s(]+", rep)
+    return any("verifharness" not in f for f in frames)
 
 
 def crash_in_code_under_test(out):
@@ -403,7 +420,7 @@ def main():
             shards = 1 if not st.get("plain_shards") else shards
         tmo = st.get("timeout_" + tier, 900 if tier == "quick" else 3 * 3600)
         for sh in range(shards):
-            name = "%s-%d" % (st["test"], sh)
+            name = "%s-%d" % (st["test"], sh) if not st.get("race") else "%s-race-%d" % (st["test"], sh)
             seed = seed_for(vseed, si * 64 + sh)
             stats_file = os.path.join(work, name + ".stats.json")
             replay_file = os.path.join(work, name + ".replay.json")
@@ -452,6 +469,14 @@ def main():
             violations.append(dst)
             tail = [l for l in out.splitlines() if "VERIF-FAIL" in l][-1:]
             print("\n".join(tail)[:3000])
+        elif st.get("race") and not pr.timed_out and race_in_code_under_test(out):
+            dst = os.path.join(REPLAYS, pid, "%s-seed%d-%s-race.json" % (tier, vseed, pr.name))
+            idx = out.find("WARNING: DATA RACE")
+            with open(dst, "w") as f:
+                json.dump({"property": pid, "error": "data race reported by the Go race detector: " + out[idx:idx + 6000], "case": None,
+                           "note": "schedule dependent; re-run the race stage with the same VERIF_SEED"}, f, indent=1)
+            violations.append(dst)
+            print(out[idx:idx + 1500])
         elif not pr.timed_out and crash_in_code_under_test(out):
             # the process died in a panic / runtime fatal error raised on a goroutine of the code
             # under test (rapid cannot recover those): a failure of the tree, not of the machinery
